@@ -39,6 +39,10 @@ type Tap struct {
 	Inner     kvs.Storage
 	HonourCtx bool
 	Base      time.Time
+	// CasSlowBefore / CasSlowAfter: every CasByVersion takes that long until it is executed / until its answer is
+	// back; with HonourCtx a caller whose context ends meanwhile gets the context's error at once (the call was
+	// not executed / was executed).
+	CasSlowBefore, CasSlowAfter time.Duration
 
 	mu     sync.Mutex
 	counts map[string]int
@@ -87,6 +91,17 @@ func (t *Tap) record(op string, n int, call time.Duration, err error) {
 	t.mu.Unlock()
 }
 
+func (t *Tap) nap(ctx context.Context, d time.Duration) {
+	if !t.HonourCtx {
+		time.Sleep(d)
+		return
+	}
+	select {
+	case <-time.After(d):
+	case <-ctx.Done():
+	}
+}
+
 func park(g *Gate) {
 	if g != nil {
 		close(g.Arrived)
@@ -120,11 +135,21 @@ func (t *Tap) CasByVersion(ctx context.Context, r kvs.Record) (kvs.Record, error
 		t.record("Cas", n, call, ErrInjected)
 		return kvs.Record{}, ErrInjected
 	}
+	if t.CasSlowBefore > 0 {
+		t.nap(ctx, t.CasSlowBefore)
+	}
 	if t.HonourCtx && ctx.Err() != nil {
 		t.record("Cas", n, call, ctx.Err())
 		return kvs.Record{}, ctx.Err()
 	}
 	res, err := t.Inner.CasByVersion(ctx, r)
+	if t.CasSlowAfter > 0 {
+		t.nap(ctx, t.CasSlowAfter)
+		if t.HonourCtx && ctx.Err() != nil {
+			t.record("Cas", n, call, ctx.Err())
+			return kvs.Record{}, ctx.Err()
+		}
+	}
 	park(after)
 	t.record("Cas", n, call, err)
 	return res, err
